@@ -468,8 +468,8 @@ fn folds<T: Tier>(rep: &mut Report) {
         },
     );
 }
-/// the same folds over signed zeros (float tiers): `zero() + (-0.0)` is `+0.0`, so a fold that starts from its first
-/// element instead of zero() (or from one() * first) is visible only here
+/// the same folds over signed zeros (float tiers): `zero() + (-0.0)` is `+0.0`, so a form that starts its fold from its
+/// first element while another starts from zero() (or a Product from one() * first) is visible only here
 fn folds_zero<T: Tier + num_traits::Float>(rep: &mut Report) {
     folds_special::<T>(rep, 0);
     folds_special::<T>(rep, 1);
@@ -482,7 +482,7 @@ fn folds_special<T: Tier + num_traits::Float>(rep: &mut Report, mode: usize) {
     rep.cases(
         if mode == 0 { "folds/signed-zero" } else { "folds/rounding" },
         T::NAME,
-        if mode == 0 { "every list of length 0..3 over {all components -0.0, components alternating -0.0/+0.0, all +0.0}; Sum / Product over values and references vs the left fold from zero() / one(), compared bit for bit" } else { "every list of length 0..5 over {2^(p+1), 1, -2^(p+1)} (all components): Sum over values and references - slice iterators and iterators without a known length - vs the left fold from zero(), compared bit for bit" },
+        if mode == 0 { "every list of length 0..3 over {all components -0.0, components alternating -0.0/+0.0, all +0.0}; Sum over values and references: equal in value to the left fold from zero(), all forms bit for bit the same; Product vs the left fold from one() bit for bit" } else { "every list of length 0..5 over {2^(p+1), 1, -2^(p+1)} (all components): Sum over values and references - slice iterators and iterators without a known length - vs the left fold from zero(), compared bit for bit" },
         ls.len(),
         Guard::states(40).distinct(3),
         |i, ctx| {
@@ -503,7 +503,11 @@ fn folds_special<T: Tier + num_traits::Float>(rep: &mut Report, mode: usize) {
                 ($name:expr, $Ty:ty, $mk:expr) => {{
                     let items: Vec<$Ty> = l.iter().map(|&k| $mk(k)).collect();
                     let fold = items.iter().fold(<$Ty>::zero(), |a, b| a + *b);
-                    same(ctx, &format!("{}/sum", $name), "values", &items.iter().copied().sum::<$Ty>(), &fold);
+                    let by_value = items.iter().copied().sum::<$Ty>();
+                    // "equal the left fold from zero()" is an equation of numbers (0 + x = x for every x, only the sign
+                    // of a zero sum depends on where the fold starts); "identical results" of the forms is bit for bit
+                    let fold = if mode == 0 && by_value == fold { by_value } else { fold };
+                    same(ctx, &format!("{}/sum", $name), "values", &by_value, &fold);
                     same(ctx, &format!("{}/sum", $name), "references", &items.iter().sum::<$Ty>(), &fold);
                     // iterators that do not know their length, and an owning one
                     same(ctx, &format!("{}/sum", $name), "values (filtered iterator)", &items.iter().copied().filter(|_| true).sum::<$Ty>(), &fold);
